@@ -34,6 +34,8 @@ static void sim_hook(bool in, int kind, const char* name, void* ptr, void* state
 static std::vector<int64_t> g_clock_reads; // simulated clock value at every read
 static int64_t g_clock_now;
 static uint64_t g_clock_seed;
+static bool g_clock_jumps;
+static int g_clock_jumped;
 namespace rlbox {
 struct high_resolution_clock
 {
@@ -46,6 +48,11 @@ struct high_resolution_clock
   {
     g_clock_seed = g_clock_seed * 6364136223846793005ULL + 1442695040888963407ULL;
     g_clock_now += 1 + (int64_t)((g_clock_seed >> 33) % 1000);
+    if (g_clock_jumps && (g_clock_seed >> 43) % 24 == 0) {
+      // the clock leaps forward by a few seconds between two readings (the process was stopped, the machine suspended)
+      g_clock_now += (int64_t)2200000000 + (int64_t)((g_clock_seed >> 20) % 3000000000u);
+      g_clock_jumped++;
+    }
     g_clock_reads.push_back(g_clock_now);
     return time_point(duration(g_clock_now));
   }
@@ -375,6 +382,8 @@ struct Runner
     g_clock_reads.clear();
     g_clock_now = 0;
     g_clock_seed = (uint64_t)op.a[5] + 17;
+    g_clock_jumps = (((uint64_t)op.a[5] >> 16) & 3) == 1;
+    g_clock_jumped = 0;
 #endif
     for (int s = 0; s < nsbx; s++) {
       sb.push_back(std::make_unique<Sandbox>());
@@ -601,6 +610,8 @@ struct Runner
           c.violate("C19", "timing_total_inconsistent_with_records@tree", "sandbox #%d", s);
       }
       c.st.sim_ns += (uint64_t)g_clock_now;
+      if (g_clock_jumped)
+        c.fired("F14_clock_leaps_forward_by_seconds");
     }
 #endif
     if (wrong_ref_of >= 0)
@@ -631,7 +642,7 @@ struct TransitionWorld : World
     o.a[2] = (int64_t)r.below(3);
     o.a[3] = r.chance(1, 6) ? 0 : (int64_t)r.range(1, 30);
     o.a[4] = r.chance(2, 3) ? 0 : (int64_t)r.range(1, 40);
-    o.a[5] = (int64_t)r.below(256) | ((int64_t)r.below(16) << 8) | ((int64_t)r.below(4) << 12) | ((int64_t)r.below(2) << 14) | ((int64_t)r.chance(1, 4) << 15);
+    o.a[5] = (int64_t)r.below(256) | ((int64_t)r.below(16) << 8) | ((int64_t)r.below(4) << 12) | ((int64_t)r.below(2) << 14) | ((int64_t)r.chance(1, 4) << 15) | ((int64_t)r.below(4) << 16);
     p.ops.push_back(o);
     return p;
   }
